@@ -11,6 +11,8 @@ class Ctx:
         self.prog = Program(repo)
         self.an = Analyzer(self.prog)
         self._rule_cache: dict = {}
+        from . import props
+        props.derive(self.prog, self.an)
 
     def R(self, f: Func) -> PathResolver:
         return self.an.resolver(f)
